@@ -15,11 +15,12 @@ case format with C01 (props/c01.py).
 import collections
 import json
 import pickle
+import time
 
 from core.engine import Property, F
 from core.prng import Rng
 from props import c01
-from props.c01 import (build, run_once, run_iso, observe, model_view, markers, gen_toy, gen_builtin, shrink_case, gen_cfg,
+from props.c01 import (build, run_once, run_iso, RunTimeout, observe, model_view, markers, gen_toy, gen_builtin, shrink_case, gen_cfg,
                        cached_failing_envs, logged_shuffled_envs, cache_bug_present, logged_envs, has_info_learner, strip_info)
 
 
@@ -82,7 +83,7 @@ class C03(Property):
 
     def generate(self, rng, tier):
         real_p = 0.02 if tier == "quick" else 0.008
-        if rng.chance(0.8):
+        if rng.chance(0.68):
             case = gen_toy(rng, tier, real_p, fail_bias=1.6, share_bias=1.6)
         else:
             case = gen_builtin(rng, tier, real_p)
@@ -162,9 +163,24 @@ class C03(Property):
         ntriples = 0
         model = None
         obs = None
+        t_end = time.time() + c01.CASE_BUDGET
+        timed_out = False
+        nocopy = {i for i, r in enumerate(case["lrns"]) if r.get("type") == "nocopy"}
         for vname, vcase in variants:
-            for run in vcase["runs"]:
-                o = run_iso(vcase, run["cfg"], run["how"], run["sched"])
+            if timed_out:
+                break
+            for run in vcase["runs"][:c01.MAX_RUNS]:
+                try:
+                    if time.time() > t_end:
+                        raise RunTimeout("the runs of this case already took more than %ds" % c01.CASE_BUDGET)
+                    o = run_iso(vcase, run["cfg"], run["how"], run["sched"], run.get("pre"))
+                except RunTimeout as e:
+                    fails.append(F("T", "%s triple list, cfg %s (%s): %s" % (vname, run["cfg"], run["how"], e), "timeout"))
+                    tags.append("timeout")
+                    timed_out = True
+                    break
+                if run.get("pre"):
+                    tags.append("session:pre-run-" + run["pre"]["how"])
                 multi = run["cfg"][0] > 1 or run["cfg"][1] != 0
                 tags.append("how:" + run["how"])
                 tags.append("cfg:%s%s" % ("multi" if multi else "inproc", ",mt>0" if run["cfg"][2] else ""))
@@ -173,10 +189,21 @@ class C03(Property):
                 ntriples = max(ntriples, len(set(triples)))
                 count_l = collections.Counter(l for _, l, _ in triples)
                 want_markers = collections.Counter()
+                want_copy_errors = 0
                 seen = set()
                 for t, key in zip(triples, ids):
+                    if t[1] in nocopy and count_l[t[1]] > 1:
+                        # no pristine copy of this learner can be made: the statement then demands that the exception is
+                        # reported and that exactly this triple has no rows
+                        alone_cache[t] = ([], [])
+                        want_copy_errors += 1
                     if t not in alone_cache:
-                        a = run_iso(alone_case(vcase, t), [1, 0, 0], "inproc", 0)
+                        try:
+                            a = run_iso(alone_case(vcase, t), [1, 0, 0], "inproc", 0)
+                        except RunTimeout as e:
+                            fails.append(F("T", "alone run of %s: %s" % (list(t), e), "timeout"))
+                            timed_out = True
+                            break
                         alone_cache[t] = (rows_at(a["result"], (0, 0, 0)), t4_markers(a["log"]))
                     arows, amarks = alone_cache[t]
                     want_markers.update(amarks)
@@ -204,6 +231,12 @@ class C03(Property):
                 if missing and not unknown_cache:
                     fails.append(F("B", "%s triple list, cfg %s (%s): exceptions %s of failing triples are not reported in the log" % (
                         vname, run["cfg"], run["how"], dict(missing)), "isolation:exception-not-logged"))
+                n_copy_errors = sum("cannot pickle" in l for l in o["log"])
+                if n_copy_errors < want_copy_errors:
+                    fails.append(F("B", "%s triple list, cfg %s (%s): %d triples list a learner that cannot be copied, only %d copy errors are reported in the log" % (
+                        vname, run["cfg"], run["how"], want_copy_errors, n_copy_errors), "isolation:exception-not-logged"))
+                if want_copy_errors:
+                    tags.append("uncopyable-shared-learner")
                 if want_markers:
                     tags.append("with-failing-triple")
                 # the caller's shared learner objects are untouched
